@@ -412,6 +412,24 @@ func c09Oracle(v *Verdict, d *DeclSpec, r *OpResult, target string, label string
 var c09Enforced = map[string]bool{"unknown-long": true, "unknown-short": true, "unknown-in-cluster": true, "delete-arg": true, "bad-value": true,
 	"delete-required": true, "delete-required-pos": true, "bad-pos-value": true, "delete-cmd": true, "misspell-cmd": true, "help": true, "env-unconvertible": true}
 
+// planTouchesGroup: does the plan name an option that lives in the top-level
+// group of this name (or below it)?
+func planTouchesGroup(d *DeclSpec, p *Plan, group string) bool {
+	for _, t := range p.Toks {
+		if t.Role == "cluster" {
+			return true // (which options a cluster names is not recorded)
+		}
+		if t.Opt == "" {
+			continue
+		}
+		parts := strings.SplitN(t.Opt, "|", 3)
+		if len(parts) == 3 && parts[0] == "" && strings.SplitN(parts[1], "/", 2)[0] == group {
+			return true
+		}
+	}
+	return false
+}
+
 func planMentions(p *Plan, opt string) bool {
 	for _, t := range p.Toks {
 		if t.Opt == opt || t.Role == "cluster" {
@@ -608,7 +626,10 @@ func (propC09) Judge(sc *Scenario) *Verdict {
 			c09Oracle(v, d, fr, p.First.ExecPath, "first parse on a reused parser", p.First.argv(), false)
 		}
 	}
-	if p.First != nil && p.LateGroup != "" && (tr.Err != "" || tr.Panic != "") && !tr.Exit && !tr.Budget {
+	if p.First != nil && p.LateGroup != "" && (tr.Err != "" || tr.Panic != "") && !tr.Exit && !tr.Budget &&
+		planConsistent(d, p.Plan) && !planTouchesGroup(d, p.First, p.LateGroup) {
+		// (the first line must not name options of the late group - it would fare
+		// differently in the two histories - and the judged line must be valid as it stands)
 		// the same history with the group declared from the start: if the line is
 		// accepted and executed there, completing the declaration after the first
 		// parse must not make it fail
